@@ -158,6 +158,7 @@ type run struct {
 	series  []seriesDef
 	shardOf []int
 	route   bool // writes are split by lindb's broker-side routing (hash -> shard, timestamp -> family)
+	own     map[int]bool // C12 node databases: the shards this database holds (nil = all)
 	forceOnly int // > 0: the next write carries exactly field forceOnly-1 (mid-flush writes)
 	points  []point
 	flushes int
@@ -311,14 +312,18 @@ func (r *run) write(op core.Op) {
 		for sh := 0; sh < r.shards; sh++ {
 			all = append(all, byShard[sh]...)
 		}
-		if err := r.n.WriteRouted(r.db, r.shards, all); err != nil {
+		var ownFn []func(int) bool
+		if r.own != nil {
+			ownFn = append(ownFn, func(sh int) bool { return r.own[sh] })
+		}
+		if err := r.n.WriteRouted(r.db, r.shards, all, ownFn...); err != nil {
 			r.c.Anomaly("routed write: %v", err)
 		}
 		r.c.Sim.Probe("write-routed-by-hash")
 		return
 	}
 	for sh := 0; sh < r.shards; sh++ {
-		if len(byShard[sh]) == 0 {
+		if len(byShard[sh]) == 0 || (r.own != nil && !r.own[sh]) {
 			continue
 		}
 		if err := r.n.Write(r.db, sh, byShard[sh]); err != nil {
@@ -376,7 +381,10 @@ func (r *run) flush() {
 	}
 	db.WaitFlushMetaCompleted()
 	for sh := 0; sh < r.shards; sh++ {
-		shard, _ := db.GetShard(models.ShardID(sh))
+		shard, ok := db.GetShard(models.ShardID(sh))
+		if !ok {
+			continue
+		}
 		if err := shard.FlushIndex(); err != nil {
 			r.c.Anomaly("flush index: %v", err)
 			return
